@@ -220,7 +220,32 @@ func c11RoundTrip(r *rand.Rand, res *core.Result, big bool, dir string) (n int, 
 	n++
 
 	// footer, meta
-	ft := table.Footer{MetaBlock: table.BlockHandle{Offset: r.Uint64(), Length: r.Uint64()}, IndexBlock: table.BlockHandle{Offset: r.Uint64(), Length: r.Uint64()}}
+	// boundary values first, random ones otherwise
+	u64 := func() uint64 {
+		switch r.Intn(6) {
+		case 0:
+			return 0
+		case 1:
+			return 1
+		case 2:
+			return math.MaxUint64
+		}
+		return r.Uint64()
+	}
+	i64 := func() int64 {
+		switch r.Intn(6) {
+		case 0:
+			return 0
+		case 1:
+			return -1
+		case 2:
+			return math.MaxInt64
+		case 3:
+			return math.MinInt64
+		}
+		return r.Int63() - r.Int63()
+	}
+	ft := table.Footer{MetaBlock: table.BlockHandle{Offset: u64(), Length: u64()}, IndexBlock: table.BlockHandle{Offset: u64(), Length: u64()}}
 	// the magic is private: take it from a real table
 	_, tb := table.Build([]types.Entry{{Key: "k@1", Value: []byte("v"), Version: 1}}, 100, 0)
 	var realFooter table.Footer
@@ -238,7 +263,7 @@ func c11RoundTrip(r *rand.Rand, res *core.Result, big bool, dir string) (n int, 
 			fail("footer", "mismatch", "footer %+v decoded as %+v (%v)", ft, fback, err)
 		}
 	}
-	mt := table.Meta{CreatedUnix: r.Int63() - r.Int63(), Level: r.Uint64()}
+	mt := table.Meta{CreatedUnix: i64(), Level: u64()}
 	menc, err := mt.Encode()
 	var mback table.Meta
 	if err != nil {
